@@ -28,9 +28,9 @@ ASSUMPTIONS = [
 SHARDS = {'quick': 8, 'thorough': 16}
 SHARD_TIMEOUT = {'quick': 900, 'thorough': 3400}
 MIN_HITS = {
-    'quick': {'mon:fedprox0': 60, 'mon:hyp1': 60, 'mon:apfl': 60, 'mon:mimelite': 20, 'mon:proxoracle': 40,
+    'quick': {'deg:zero-step-client-with-weight': 4, 'mon:fedprox0': 60, 'mon:hyp1': 60, 'mon:apfl': 60, 'mon:mimelite': 20, 'mon:proxoracle': 40,
               'mon:proxaug': 40, 'mon:mime': 40, 'leg:apfl-rounds': 60},
-    'thorough': {'mon:fedprox0': 1200, 'mon:hyp1': 1200, 'mon:apfl': 1200, 'mon:mimelite': 400, 'mon:proxoracle': 800,
+    'thorough': {'deg:zero-step-client-with-weight': 60, 'mon:fedprox0': 1200, 'mon:hyp1': 1200, 'mon:apfl': 1200, 'mon:mimelite': 400, 'mon:proxoracle': 800,
                  'mon:proxaug': 800, 'mon:mime': 700, 'leg:apfl-rounds': 1200},
 }
 EXHAUSTIVE = {'quick': False, 'thorough': False}
@@ -79,6 +79,14 @@ def gen_history(rng, quick, family):
   extra = {}
   if family == 'deg' and rng.rand() < 0.35:
     cspec, sspec = ('sgd', lr), ('sgd', 1.0)      # the MimeLite leg exists only for SGD / SGD(1.0)
+    if rng.rand() < 0.4 and n_clients >= 2:
+      # forced class: a client that takes NO local step (smaller than the batch, remainder dropped) but still carries
+      # its example count as weight, next to clients that do train
+      bs, ne, drop = 4, 1, True
+      ns = None if rng.rand() < 0.5 else 3
+      sizes[0] = int(rng.randint(1, 4))
+      sizes[1] = int(rng.choice([5, 7, 8, 13]))
+      extra['zero_step_client'] = True
   if family == 'deg':
     extra['client_coefficient'] = float(np.round(rng.uniform(0.0, 1.0), 2))
     extra['grads_batch_size'] = int([1, 2, 4, 16][rng.randint(4)])
@@ -105,6 +113,8 @@ def gen_history(rng, quick, family):
     else:
       c = [int(np.argmax(sizes))]
     cohorts.append(c)
+  if extra.get('zero_step_client'):
+    cohorts = [sorted(set(c) | {0, 1}) for c in cohorts]
   return dict(family=family, dim=dim, kind=kind, sizes=sizes, cspec=cspec, sspec=sspec, hp=hp, rounds=rounds,
               cohorts=cohorts, init_seed=int(rng.randint(0, 2**31 - 1)), **extra)
 
@@ -211,6 +221,8 @@ def run_deg(ctx, fedjax, jax, jnp, h):
       if got is not None:
         compare(ctx, f'{key}/params-differ-from-fedavg', f'round {rnd}: {leg.name} vs fed_avg', got, expected, tol, w)
   klass = ['family=deg', f"copt={h['cspec'][0]}", f"sopt={h['sspec'][0]}"] + (['discarded'] if discarded else [])
+  if h.get('zero_step_client'):
+    klass.append('deg:zero-step-client-with-weight')
   key = ('deg', tuple(h['sizes']), tuple(sorted(h['hp'].items(), key=str)), h['cspec'], h['sspec'],
          tuple(map(tuple, h['cohorts'])))
   ctx.case_done(key if (nontrivial and not discarded) else None, sample=wit, klass=klass)
